@@ -118,3 +118,22 @@ func RestartAndJoinBetween(restartProb, joinProb float64, maxReplicas int, numVa
 		return out
 	}
 }
+
+// EvidenceHook adds, with the given probability, duplicate-vote evidence against a current validator.
+func EvidenceHook(prob float64, next func(e *core.Engine, rng *rand.Rand, st *core.Step, gc *gen.Ctx)) func(e *core.Engine, rng *rand.Rand, st *core.Step, gc *gen.Ctx) {
+	return func(e *core.Engine, rng *rand.Rand, st *core.Step, gc *gen.Ctx) {
+		if next != nil {
+			next(e, rng, st, gc)
+		}
+		h := e.C.Height()
+		if h < 2 || rng.Float64() >= prob {
+			return
+		}
+		vals := e.C.Ref().State.LastValidators
+		if vals == nil || len(vals.Validators) < 2 {
+			return
+		}
+		v := vals.Validators[rng.Intn(len(vals.Validators))]
+		st.Evidence = append(st.Evidence, core.EvidenceSpec{Validator: v.Address.String(), Height: h - int64(rng.Intn(2))})
+	}
+}
